@@ -122,7 +122,13 @@ def finish(rep, level):
             kmap[k['key']] = k
     new = []
     listed = []
+    seen_keys = set()
+    uniq = []
     for f in rep.findings:
+        if f.key not in seen_keys:
+            seen_keys.add(f.key)
+            uniq.append(f)
+    for f in uniq:
         if f.key in kmap:
             listed.append(f)
         else:
